@@ -85,6 +85,17 @@ def run_shard(spec, rep):
                     for c in U:
                         via = p.convert(c, comp).convert(b, comp).value
                         rep.check("A->C->B equals A->B", abs(via - q.value), 8 * EPS * q.value, dict(c2, via=c), {"via": via, "direct": q.value})
+            if comp.name == "S" and v > 0:
+                # one Permeance object converted, then the component's molar mass corrected in place, then converted again
+                pobj = Permeance(value=v, units=Units.SI)
+                first = pobj.convert(Units.kg_m2_h_kPa, comp).value
+                m_new = M * rng.uniform(1.05, 3.0)
+                comp.molecular_weight = m_new
+                second = pobj.convert(Units.kg_m2_h_kPa, comp).value
+                ref2 = v * _factor(Units.SI, m_new) / _factor(Units.kg_m2_h_kPa, m_new)
+                rep.check("same Permeance object, molar mass corrected in place: the conversion follows the new molar mass", abs(second - ref2), 4 * EPS * ref2,
+                          dict(case, M_new=m_new), {"first": first, "second": second, "ref": ref2})
+                comp.molecular_weight = M
             one = Permeance(value=1.0, units=Units.kg_m2_h_kPa).convert(Units.SI, comp).value
             rep.check("1 kg/(m2 h kPa) = 1/(3600 M) SI", abs(one - 1 / (3600 * M)), 4 * EPS / (3600 * M), case, {"got": one})
             rep.require("1 GPU = 3.35e-10 SI", Permeance(value=1.0, units=Units.GPU).convert(Units.SI).value == 3.35e-10, case)
